@@ -98,6 +98,19 @@ Proof.
   rewrite upd_other; [exact S'|]. intro; subst k'. apply memo_some in M'. congruence.
 Qed.
 
+Lemma consistentc_upd_multi : forall s k v P, consistentc s -> cls k = Multi P -> P v -> consistentc (upd s k v).
+Proof.
+  intros s k v P C M Pv k'. destruct (N.eq_dec k' k) as [E|E].
+  - subst k'. rewrite M, upd_same. right. exists v. split; [exact Pv|reflexivity].
+  - rewrite upd_other by assumption. apply C.
+Qed.
+
+Lemma knows_upd_multi : forall kn s k v P, knows kn s -> cls k = Multi P -> knows kn (upd s k v).
+Proof.
+  intros kn s k v P K M k' H. destruct (K k' H) as [v' [M' S']]. exists v'. split; [exact M'|].
+  rewrite upd_other; [exact S'|]. intro; subst k'. apply memo_some in M'. congruence.
+Qed.
+
 Lemma agree_upd_same : forall i s pv k v, agree_priv i s pv -> agree_priv i (upd s k v) (upd pv k v).
 Proof.
   intros i s pv k v A k' H. destruct (N.eq_dec k' k) as [E|E].
@@ -117,7 +130,7 @@ Lemma step1_okp : forall i pv kn (p : prog V R) r pf s, okp i pv kn p r pf -> co
 Proof.
   intros i pv kn p r pf s H C K A.
   destruct H as [pv kn r|pv kn k f r pf M H|pv kn k f r pf M H|pv kn k v p r pf M H|pv kn k v f r pf M Hk H
-                |pv kn k v f r pf M H1 H2|pv kn k v p r pf M H]; cbn.
+                |pv kn k v f r pf M H1 H2|pv kn k v p r pf M H|pv kn k P f r pf M H1 H2|pv kn k P v p r pf M Pv H]; cbn.
   - split; [exact C|]. exists pv, kn. repeat split; try assumption. constructor.
   - split; [exact C|]. exists pv, kn. repeat split; try assumption.
     pose proof (C k) as Ck. rewrite M in Ck. rewrite Ck. exact H.
@@ -136,6 +149,12 @@ Proof.
     + exact H.
     + apply knows_upd; [exact K|apply memo_idem, M].
     + apply agree_upd_other; [exact A|]. rewrite M. discriminate.
+  - split; [exact C|]. exists pv, kn. repeat split; try assumption.
+    pose proof (C k) as Ck. rewrite M in Ck. destruct Ck as [E|[v [Pv E]]]; rewrite E; [exact H1|apply H2, Pv].
+  - split; [eapply consistentc_upd_multi; eauto|]. exists pv, kn. repeat split.
+    + exact H.
+    + eapply knows_upd_multi; eauto.
+    + apply agree_upd_other; [exact A|]. rewrite M. discriminate.
 Qed.
 
 (* a step of another disciplined thread keeps what this thread knows and owns *)
@@ -145,9 +164,11 @@ Lemma step1_other : forall i j pvj knj (q : prog V R) rj pfj kn pv s, okp j pvj 
 Proof.
   intros i j pvj knj q rj pfj kn pv s H Hji K A.
   destruct H as [pv0 kn0 r|pv0 kn0 k f r pf M H|pv0 kn0 k f r pf M H|pv0 kn0 k v p r pf M H|pv0 kn0 k v f r pf M Hk H
-                |pv0 kn0 k v f r pf M H1 H2|pv0 kn0 k v p r pf M H]; cbn; try (split; assumption).
+                |pv0 kn0 k v f r pf M H1 H2|pv0 kn0 k v p r pf M H|pv0 kn0 k P f r pf M H1 H2|pv0 kn0 k P v p r pf M Pv H];
+    cbn; try (split; assumption).
   - split; [eapply knows_upd_priv; eauto|]. apply agree_upd_other; [exact A|]. rewrite M. intro X. inversion X. contradiction.
   - split; [apply knows_upd_other; [exact K|apply memo_idem, M]|]. apply agree_upd_other; [exact A|]. rewrite M. discriminate.
+  - split; [eapply knows_upd_multi; eauto|]. apply agree_upd_other; [exact A|]. rewrite M. discriminate.
 Qed.
 
 (* what the thread computes and leaves alone, from any store it is consistent with *)
@@ -157,7 +178,8 @@ Lemma solo_okp : forall i pv kn (p : prog V R) r pf, okp i pv kn p r pf ->
 Proof.
   intros i pv kn p r pf H.
   induction H as [pv kn r|pv kn k f r pf M H IH|pv kn k f r pf M H IH|pv kn k v p r pf M H IH|pv kn k v f r pf M Hk H IH
-                 |pv kn k v f r pf M H1 IH1 H2 IH2|pv kn k v p r pf M H IH]; intros s C K A; cbn.
+                 |pv kn k v f r pf M H1 IH1 H2 IH2|pv kn k v p r pf M H IH|pv kn k P f r pf M H1 IH1 H2 IH2
+                 |pv kn k P v p r pf M Pv H IH]; intros s C K A; cbn.
   - split; [reflexivity|]. intros k Hk. apply A, Hk.
   - pose proof (C k) as Ck. rewrite M in Ck. rewrite Ck. apply IH; assumption.
   - rewrite (A k M). apply IH; assumption.
@@ -169,6 +191,11 @@ Proof.
     + apply IH2; try assumption. eapply knows_add_present; eauto. apply memo_idem, M.
   - apply IH; [apply consistentc_upd_idem; assumption|apply knows_upd; [exact K|apply memo_idem, M]|].
     apply agree_upd_other; [exact A|]. rewrite M. discriminate.
+  - pose proof (C k) as Ck. rewrite M in Ck. destruct Ck as [E|[v [Pv E]]]; rewrite E.
+    + apply IH1; assumption.
+    + apply (IH2 v Pv); assumption.
+  - apply IH; [eapply consistentc_upd_multi; eauto|eapply knows_upd_multi; eauto|].
+    apply agree_upd_other; [exact A|]. rewrite M. discriminate.
 Qed.
 
 (* the log entry of a step is legal *)
@@ -177,6 +204,7 @@ Proof.
   intros i pv kn p r pf k0 H W. unfold log_legal. cbn.
   destruct H; cbn in W; try discriminate; inversion W; subst.
   - rewrite H. reflexivity.
+  - rewrite H. exact I.
   - rewrite H. exact I.
 Qed.
 
@@ -499,3 +527,107 @@ Qed.
 
 Lemma confluent_not_refuted : forall p, pat_confluent p = true -> pat_refuted p = false.
 Proof. intros []; cbn; intro H; try discriminate; reflexivity. Qed.
+
+(* ------------------------------------------------------------------------------------------ *)
+(* deletion                                                                                    *)
+(* ------------------------------------------------------------------------------------------ *)
+Section DelP.
+Variable W R : Type.
+Variable cls : N -> lclass (option W).
+Variable base : store (option W).
+Notation okp := (okp cls base).
+
+Lemma okp_read_frozen : forall i ks acc (cont : list (option (option W)) -> prog (option W) R) pv kn r pf,
+  (forall x, In x ks -> cls x = Frozen) ->
+  okp i pv kn (cont (rev acc ++ map base ks)) r pf -> okp i pv kn (read_all ks acc cont) r pf.
+Proof.
+  intros i. induction ks as [|k ks IH]; intros acc cont pv kn r pf Hm H; cbn [read_all].
+  - cbn in H. rewrite app_nil_r in H. exact H.
+  - apply p_get_frozen; [apply Hm; left; reflexivity|].
+    apply IH; [intros x Hx; apply Hm; right; exact Hx|].
+    cbn [rev]. rewrite <- app_assoc. exact H.
+Qed.
+
+(* invalidation of a cache location is a legal action of ANY thread ... *)
+Lemma okp_del_cache : forall i k w (p : prog (option W) R) pv kn r pf,
+  cls k = Multi (cacheP w) -> okp i pv kn p r pf -> okp i pv kn (Del k p) r pf.
+Proof. intros. unfold Del. eapply p_put_multi; [eassumption|left; reflexivity|assumption]. Qed.
+
+(* ... and the no-read-back use of the cache copes with it: whatever it finds, it continues with the one value *)
+Lemma okp_use_cache : forall i k ks g (cont : W -> prog (option W) R) pv kn r pf,
+  cls k = Multi (cacheP (g (map base ks))) -> (forall x, In x ks -> cls x = Frozen) ->
+  (forall kn', okp i pv kn' (cont (g (map base ks))) r pf) ->
+  okp i pv kn (use_cache k ks g cont) r pf.
+Proof.
+  intros i k ks g cont pv kn r pf M Fz Hc. unfold use_cache, GetV.
+  assert (Hcomp : okp i pv kn (read_all ks [] (fun vals => SetV k (g vals) (cont (g vals)))) r pf).
+  { apply okp_read_frozen; [exact Fz|]. cbn [rev app]. unfold SetV.
+    eapply p_put_multi; [exact M|right; reflexivity|apply Hc]. }
+  eapply p_get_multi; [exact M| |].
+  - cbn. exact Hcomp.
+  - intros v [E|E]; subst v; cbn; [exact Hcomp|apply Hc].
+Qed.
+
+(* deleting a location that is only ever deleted (pop of a key nobody sets): the tombstone is its one value *)
+Lemma okp_del_only : forall i k (p : prog (option W) R) pv kn r pf,
+  cls k = Idem None -> okp i pv (addk k kn) p r pf -> okp i pv kn (Del k p) r pf.
+Proof. intros. unfold Del. eapply p_put_idem; eassumption. Qed.
+
+Lemma okp_get_del_only : forall i k (f : option W -> prog (option W) R) pv kn r pf,
+  cls k = Idem None -> (forall kn', okp i pv kn' (f None) r pf) -> okp i pv kn (GetV k f) r pf.
+Proof. intros i k f pv kn r pf M H. unfold GetV. eapply p_get_idem; [exact M| |]; cbn; apply H. Qed.
+
+(* invalidators and no-read-back users of one cache, any number of each, EVERY schedule: every finished user holds
+   out (the one value), every finished invalidator its constant *)
+Theorem del_invalidate_confluent : forall (k : N) (ks : list N) (g : list (option (option W)) -> W) (out : W -> R) (r0 : R)
+  (is_user : nat -> bool) (s0 : store (option W)),
+  cls k = Multi (cacheP (g (map base ks))) -> (forall x, In x ks -> cls x = Frozen) ->
+  consistentc cls base s0 ->
+  let ps : pool (option W) R := fun i => if is_user i then use_cache k ks g (fun w => Ret (out w)) else Del k (Ret r0) in
+  forall sched i r, result (exec sched (init ps s0)) i = Some r ->
+    r = (if is_user i then out (g (map base ks)) else r0).
+Proof.
+  intros k ks g out r0 is_user s0 M Fz C ps sched i r H.
+  pose (rs := fun j => if is_user j then out (g (map base ks)) else r0).
+  assert (Hok : forall j, okp j s0 nothing (ps j) (rs j) s0).
+  { intro j. unfold ps, rs. destruct (is_user j).
+    - apply okp_use_cache; [exact M|exact Fz|]. intro kn'. constructor.
+    - eapply okp_del_cache; [exact M|constructor]. }
+  destruct (footprint_confluence (option W) R cls base ps rs (fun _ => s0) s0 Hok C sched) as [H1 _].
+  destruct (H1 i r H) as [E _]. rewrite E.
+  assert (K0 : knows (memo_of cls) nothing s0) by (intros x Hx; discriminate).
+  assert (A0 : agree_priv cls i s0 s0) by (intros x Hx; reflexivity).
+  destruct (solo_okp (option W) R cls base i s0 nothing (ps i) (rs i) s0 (Hok i) s0 C K0 A0) as [S1 _].
+  exact S1.
+Qed.
+
+End DelP.
+
+(* refuted: the read-back use (hasattr, then getitem) against an invalidator - the C20-6 shape: KeyError *)
+Lemma del_readback_refuted :
+  let s0 : store (option N) := upd (fun _ => None) 7%N (Some 42%N) in
+  let reader : prog (option N) N := use_cache_readback 7%N [] (fun _ => 42%N) 999%N (fun w => Ret w) in
+  let deleter : prog (option N) N := Del 7%N (Ret 0%N) in
+  result (exec [0; 1; 0] (init (fun i => match i with 0 => reader | _ => deleter end) s0)) 0 = Some 999%N /\
+  fst (solo reader s0) = 42%N /\
+  (* the no-read-back use under the same schedule is fine *)
+  result (exec [0; 1; 0] (init (fun i => match i with 0 => use_cache 7%N [] (fun _ => 42%N) (fun w => Ret w) | _ => deleter end) s0)) 0
+    = Some 42%N /\
+  (* and the deletion is a destructive write in the sense of classify *)
+  In KDestructiveWrite (kinds (fun a b : option N => match a, b with Some x, Some y => N.eqb x y | None, None => true | _, _ => false end)
+                              [0; 1] (init (fun i => match i with 0 => reader | _ => deleter end) s0)).
+Proof. vm_compute. repeat split; try reflexivity. right; left; reflexivity. Qed.
+
+(* an observed removal is never accepted for a non-volatile location, and is classified ERemove *)
+Lemma removal_rejected : forall e, e_new e = None -> ev_ok e = false.
+Proof. intros e H. unfold ev_ok. rewrite H. destruct (e_old e); reflexivity. Qed.
+
+Lemma removal_kind : forall e a, e_old e = Some a -> e_new e = None -> ev_kind e = ERemove.
+Proof. intros e a H1 H2. unfold ev_kind. rewrite H1, H2. reflexivity. Qed.
+
+Theorem footprint_ok_vol_sound : forall vol evs, footprint_ok_vol vol evs = true ->
+  exists memo : N -> option N, forall e, In e evs -> vol (e_key e) = false -> ev_legal memo e /\ pat_refuted (e_pat e) = false.
+Proof.
+  intros vol evs H. unfold footprint_ok_vol in H. destruct (footprint_ok_sound _ H) as [memo Hm].
+  exists memo. intros e He Hv. apply Hm. apply filter_In. split; [exact He|]. rewrite Hv. reflexivity.
+Qed.
